@@ -61,6 +61,11 @@ class Sim:
                 g.reveal_value(pair["v"][op[2]], repo.coal(op[2]))
             pair["K"].add(op[2])
             pair["dirty"] = True
+        elif kind == "set_many":
+            for g in (pair["a"], pair["b"]):
+                g.set_values(np.array([pair["v"][m] for m in op[2]], dtype=float), repo.coals(op[2]))   # bulk set, no reset
+            pair["K"].update(op[2])
+            pair["dirty"] = True
         elif kind == "unreveal":
             for g in (pair["a"], pair["b"]):
                 g.unreveal_value(repo.coal(op[2]))
@@ -184,6 +189,15 @@ def make_machine(max_n: int):
             u = [s for s in range(1 << pair["n"]) if s not in pair["K"]]
             if u:
                 self._do(["reveal", p, u[i % len(u)]])
+
+        @precondition(lambda self: self.sim.pairs)
+        @rule(p=st.integers(0, 99), picks=st.lists(st.integers(0, 2**20), min_size=1, max_size=4))
+        def set_many(self, p, picks):
+            p %= len(self.sim.pairs)
+            pair = self.sim.pairs[p]
+            u = [s for s in range(1 << pair["n"]) if s not in pair["K"]]
+            if u:
+                self._do(["set_many", p, sorted({u[i % len(u)] for i in picks})])
 
         @precondition(lambda self: self.sim.pairs)
         @rule(p=st.integers(0, 99), i=st.integers(0, 2**20))
